@@ -438,6 +438,16 @@ def check_timers(p, w, r):
                 good_proc = name
         fi = s.methods['put']
         if good_proc:
+            # every accepted put arms its own timer: a put path that skips the spawn (a "one pending timer is enough" shortcut) leaves the item it
+            # stores without a wake-up at *its* maturity instant
+            unarmed = [pa for pa in w.roots['put'] if not pa.raises and pa.status != 'loopcut'
+                       and any(e.kind == 'op' and e.list in s.holders and e.op in ('append', 'insert') for e in pa.events)
+                       and not any(e.kind == 'spawn' and e.func == 'self.' + good_proc for e in pa.events)]
+            if unarmed:
+                r.fail('C04.R2', key, f'a path of put() stores the item without starting {good_proc}: nothing re-runs {trig} when that item becomes '
+                                      f'servable (a timer armed for an earlier item fires too early for it)', src(fi.module), fi.node.lineno, unarmed[0].describe())
+                continue
+        if good_proc:
             r.ok('C04.R2', key, f'process {good_proc} fires {trig} after its timed wait on every completing path', src(fi.module), fi.node.lineno)
         else:
             r.fail('C04.R2', key, why, src(fi.module), fi.node.lineno)
